@@ -99,7 +99,7 @@ fn simple_server_prog(t: &Tape) -> ServerStreamProg {
         headers: gen_headers(t, 3, 300),
         sensitive_mod: 0,
         eos_on_headers: t.chance(Lane::Work, 1, 2),
-        body: BodyPlan { chunks: vec![Chunk { len: t.draw(Lane::Work, 3000) as usize, mode: ChunkMode::Direct }], end: EndMode::OnLastData, abort: Abort::None, wait_reset: false },
+        body: BodyPlan { chunks: vec![Chunk { len: t.draw(Lane::Work, 3000) as usize, mode: ChunkMode::Direct }], end: EndMode::OnLastData, abort: Abort::None, wait_reset: false, late_ops: 0 },
         pushes: vec![],
         respond_delay: *t.pick(Lane::Work, &[0u32, 1, 5]),
         refuse: None,
@@ -119,7 +119,7 @@ fn simple_client_prog(t: &Tape, idx: usize) -> ClientStreamProg {
         headers: gen_headers(t, 3, 300),
         sensitive_mod: 0,
         eos_on_headers: t.chance(Lane::Work, 1, 2),
-        body: BodyPlan { chunks: vec![Chunk { len: t.draw(Lane::Work, 3000) as usize, mode: ChunkMode::Direct }], end: EndMode::OnLastData, abort: Abort::None, wait_reset: false },
+        body: BodyPlan { chunks: vec![Chunk { len: t.draw(Lane::Work, 3000) as usize, mode: ChunkMode::Direct }], end: EndMode::OnLastData, abort: Abort::None, wait_reset: false, late_ops: 0 },
         read: ReadPlan { release: *t.pick(Lane::Work, &[Release::Immediate, Release::WhenBlocked, Release::Halves]), stop_after: None, probe_end_stream: true, skip_trailers: false },
         poll_informational: t.chance(Lane::Work, 1, 2),
         take_pushes: true,
@@ -793,6 +793,7 @@ fn raw_msg(t: &Tape, fields: Vec<(Vec<u8>, Vec<u8>)>) -> Msg {
         prio: None,
         size_update: None,
         raw_block: None,
+        tail: MsgTail::None,
     }
 }
 
@@ -861,16 +862,18 @@ fn gen_malformed_request(t: &Tape, plan: &mut T2Plan, next_id: &mut u32) {
         9 => {
             // content-length larger than the body, END_STREAM on DATA
             fields[0].1 = b("POST");
-            fields.push((b("content-length"), b("10")));
+            let (cl, frames, pad) = gen_cl_mismatch(t, false);
+            fields.push((b("content-length"), cl.to_string().into_bytes()));
             eos = false;
-            body = Some(BodySpec { frames: vec![4], pad: vec![None], end: PeerEnd::OnLastData, ignore_windows: false });
+            body = Some(BodySpec { frames, pad, end: PeerEnd::OnLastData, ignore_windows: false });
             label = "content-length-short-body".into();
         }
         10 => {
             fields[0].1 = b("POST");
-            fields.push((b("content-length"), b("3")));
+            let (cl, frames, pad) = gen_cl_mismatch(t, true);
+            fields.push((b("content-length"), cl.to_string().into_bytes()));
             eos = false;
-            body = Some(BodySpec { frames: vec![2, 5], pad: vec![None, None], end: PeerEnd::OnLastData, ignore_windows: false });
+            body = Some(BodySpec { frames, pad, end: PeerEnd::OnLastData, ignore_windows: false });
             label = "content-length-long-body".into();
         }
         11 => {
@@ -1004,15 +1007,17 @@ fn gen_malformed_response(t: &Tape, plan: &mut T2Plan) {
             label = "pseudo-after-regular".into();
         }
         6 => {
-            fields.push((b("content-length"), b("10")));
+            let (cl, frames, pad) = gen_cl_mismatch(t, false);
+            fields.push((b("content-length"), cl.to_string().into_bytes()));
             eos = false;
-            body = Some(BodySpec { frames: vec![4], pad: vec![None], end: PeerEnd::OnLastData, ignore_windows: false });
+            body = Some(BodySpec { frames, pad, end: PeerEnd::OnLastData, ignore_windows: false });
             label = "content-length-short-body".into();
         }
         7 => {
-            fields.push((b("content-length"), b("3")));
+            let (cl, frames, pad) = gen_cl_mismatch(t, true);
+            fields.push((b("content-length"), cl.to_string().into_bytes()));
             eos = false;
-            body = Some(BodySpec { frames: vec![2, 5], pad: vec![None, None], end: PeerEnd::OnLastData, ignore_windows: false });
+            body = Some(BodySpec { frames, pad, end: PeerEnd::OnLastData, ignore_windows: false });
             label = "content-length-long-body".into();
         }
         8 => {
@@ -1077,6 +1082,33 @@ fn gen_malformed_response(t: &Tape, plan: &mut T2Plan) {
 // --------------------------------------------------------------------------------------
 // invalid HPACK
 
+
+/// A declared content-length and DATA frame sizes whose total differs from it.
+fn gen_cl_mismatch(t: &Tape, long: bool) -> (u64, Vec<usize>, Vec<Option<u8>>) {
+    let cl: u64 = if long { *t.pick(Lane::Peer, &[0u64, 0, 1, 3, 10, 1000]) } else { *t.pick(Lane::Peer, &[1u64, 2, 10, 1000, 70_000]) };
+    let n = 1 + t.draw(Lane::Peer, 3) as usize;
+    let mut frames: Vec<usize> = Vec::new();
+    if long {
+        // total = cl + extra, split over n frames (zero-length frames allowed)
+        let extra = 1 + t.draw(Lane::Peer, 5) as u64;
+        let mut left = cl + extra;
+        for i in 0..n {
+            let k = if i == n - 1 { left } else { t.draw(Lane::Peer, left as u32 + 1) as u64 };
+            frames.push(k as usize);
+            left -= k;
+        }
+    } else {
+        let mut left = t.draw(Lane::Peer, cl.min(3000) as u32) as u64;
+        for i in 0..n {
+            let k = if i == n - 1 { left } else { t.draw(Lane::Peer, left as u32 + 1) as u64 };
+            frames.push(k as usize);
+            left -= k;
+        }
+    }
+    let pad = frames.iter().map(|_| if t.chance(Lane::Peer, 1, 4) { Some(t.draw(Lane::Peer, 20) as u8) } else { None }).collect();
+    (cl, frames, pad)
+}
+
 fn gen_hpack_invalid(t: &Tape, plan: &mut T2Plan, next_id: &mut u32) {
     let mut blk: Vec<u8> = vec![0x82, 0x87, 0x84, 0x01, 0x01, b'a'];
     let label;
@@ -1131,11 +1163,48 @@ fn gen_hpack_invalid(t: &Tape, plan: &mut T2Plan, next_id: &mut u32) {
         }
     }
     let _ = (enc_str as fn(&mut Vec<u8>, &[u8], bool, usize), huff_encode as fn(&[u8]) -> Vec<u8>);
+    if !plan.e_client && t.chance(Lane::Peer, 1, 3) {
+        // State-dependent: the first index past the dynamic table as RFC 7541 defines it at
+        // that moment, optionally right after an insertion that must have emptied the table.
+        plan.label = "hpack-invalid:index-just-beyond-table".into();
+        plan.expect = Expect::Conn("HPACK decoding error: index beyond the dynamic table");
+        let pos = plan.script.iter().position(|o| matches!(o, PeerOp::Fin)).unwrap_or(plan.script.len());
+        let mut ops = vec![];
+        if t.chance(Lane::Peer, 2, 3) {
+            // something small goes in first ...
+            let sid = *next_id;
+            *next_id += 2;
+            let mut m = request_msg(t, "/hp/small", "GET", &vec![("x-s".to_string(), b"1".to_vec())], false);
+            for c in m.choices.iter_mut() {
+                c.repr = Repr::LitIncr;
+            }
+            ops.push(PeerOp::Open { sid, head: m, eos: true, body: None });
+            // ... then an entry that does not fit
+            let sid = *next_id;
+            *next_id += 2;
+            let mut m = request_msg(t, "/hp/oversize", "GET", &vec![], false);
+            m.tail = MsgTail::OversizeInsert;
+            ops.push(PeerOp::Open { sid, head: m, eos: true, body: None });
+            ops.push(PeerOp::Barrier);
+        }
+        let sid = *next_id;
+        *next_id += 2;
+        let mut m = request_msg(t, "/hp/probe", "GET", &vec![], false);
+        m.tail = MsgTail::IndexBeyondTable;
+        m.cuts = vec![];
+        ops.push(PeerOp::Mark("hpack"));
+        ops.push(PeerOp::Open { sid, head: m, eos: true, body: None });
+        ops.push(PeerOp::Barrier);
+        for (i, o) in ops.into_iter().enumerate() {
+            plan.script.insert(pos + i, o);
+        }
+        return;
+    }
     plan.label = format!("hpack-invalid:{}", label);
     plan.expect = Expect::Conn("HPACK decoding error");
     let cuts = gen_cuts(t, blk.len());
     let cuts = if label == "size-update-mid-block" && t.chance(Lane::Peer, 3, 4) { vec![3] } else { cuts };
-    let m = Msg { fields: vec![], choices: vec![], cuts, pad: None, prio: None, size_update: None, raw_block: Some(blk) };
+    let m = Msg { fields: vec![], choices: vec![], cuts, pad: None, prio: None, size_update: None, raw_block: Some(blk), tail: MsgTail::None };
     // insert before the final Fin / barrier sequence
     if plan.e_client {
         let rp = RespPlan { informational: vec![], head: m, eos: true, body: None, delay: 0, pushes: vec![] };
